@@ -256,30 +256,30 @@ func NewPairing(api frontend.API) *Pairing {
 }
 
 func (c *Pairing) IsEqual(x, y *GT) frontend.Variable {
-	diff0 := c.api.Sub(&x.D0.C0.B0.A0, &y.D0.C0.B0.A0)
-	diff1 := c.api.Sub(&x.D0.C0.B0.A1, &y.D0.C0.B0.A1)
-	diff2 := c.api.Sub(&x.D0.C0.B0.A0, &y.D0.C0.B0.A0)
-	diff3 := c.api.Sub(&x.D0.C0.B1.A1, &y.D0.C0.B1.A1)
-	diff4 := c.api.Sub(&x.D0.C0.B1.A0, &y.D0.C0.B1.A0)
-	diff5 := c.api.Sub(&x.D0.C0.B1.A1, &y.D0.C0.B1.A1)
-	diff6 := c.api.Sub(&x.D0.C1.B0.A0, &y.D0.C1.B0.A0)
-	diff7 := c.api.Sub(&x.D0.C1.B0.A1, &y.D0.C1.B0.A1)
-	diff8 := c.api.Sub(&x.D0.C1.B0.A0, &y.D0.C1.B0.A0)
-	diff9 := c.api.Sub(&x.D0.C1.B1.A1, &y.D0.C1.B1.A1)
-	diff10 := c.api.Sub(&x.D0.C1.B1.A0, &y.D0.C1.B1.A0)
-	diff11 := c.api.Sub(&x.D0.C1.B1.A1, &y.D0.C1.B1.A1)
-	diff12 := c.api.Sub(&x.D1.C0.B0.A0, &y.D1.C0.B0.A0)
-	diff13 := c.api.Sub(&x.D1.C0.B0.A1, &y.D1.C0.B0.A1)
-	diff14 := c.api.Sub(&x.D1.C0.B0.A0, &y.D1.C0.B0.A0)
-	diff15 := c.api.Sub(&x.D1.C0.B1.A1, &y.D1.C0.B1.A1)
-	diff16 := c.api.Sub(&x.D1.C0.B1.A0, &y.D1.C0.B1.A0)
-	diff17 := c.api.Sub(&x.D1.C0.B1.A1, &y.D1.C0.B1.A1)
-	diff18 := c.api.Sub(&x.D1.C1.B0.A0, &y.D1.C1.B0.A0)
-	diff19 := c.api.Sub(&x.D1.C1.B0.A1, &y.D1.C1.B0.A1)
-	diff20 := c.api.Sub(&x.D1.C1.B0.A0, &y.D1.C1.B0.A0)
-	diff21 := c.api.Sub(&x.D1.C1.B1.A1, &y.D1.C1.B1.A1)
-	diff22 := c.api.Sub(&x.D1.C1.B1.A0, &y.D1.C1.B1.A0)
-	diff23 := c.api.Sub(&x.D1.C1.B1.A1, &y.D1.C1.B1.A1)
+	diff0 := c.api.Sub(x.D0.C0.B0.A0, y.D0.C0.B0.A0)
+	diff1 := c.api.Sub(x.D0.C0.B0.A1, y.D0.C0.B0.A1)
+	diff2 := c.api.Sub(x.D0.C0.B1.A0, y.D0.C0.B1.A0)
+	diff3 := c.api.Sub(x.D0.C0.B1.A1, y.D0.C0.B1.A1)
+	diff4 := c.api.Sub(x.D0.C1.B0.A0, y.D0.C1.B0.A0)
+	diff5 := c.api.Sub(x.D0.C1.B0.A1, y.D0.C1.B0.A1)
+	diff6 := c.api.Sub(x.D0.C1.B1.A0, y.D0.C1.B1.A0)
+	diff7 := c.api.Sub(x.D0.C1.B1.A1, y.D0.C1.B1.A1)
+	diff8 := c.api.Sub(x.D0.C2.B0.A0, y.D0.C2.B0.A0)
+	diff9 := c.api.Sub(x.D0.C2.B0.A1, y.D0.C2.B0.A1)
+	diff10 := c.api.Sub(x.D0.C2.B1.A0, y.D0.C2.B1.A0)
+	diff11 := c.api.Sub(x.D0.C2.B1.A1, y.D0.C2.B1.A1)
+	diff12 := c.api.Sub(x.D1.C0.B0.A0, y.D1.C0.B0.A0)
+	diff13 := c.api.Sub(x.D1.C0.B0.A1, y.D1.C0.B0.A1)
+	diff14 := c.api.Sub(x.D1.C0.B1.A0, y.D1.C0.B1.A0)
+	diff15 := c.api.Sub(x.D1.C0.B1.A1, y.D1.C0.B1.A1)
+	diff16 := c.api.Sub(x.D1.C1.B0.A0, y.D1.C1.B0.A0)
+	diff17 := c.api.Sub(x.D1.C1.B0.A1, y.D1.C1.B0.A1)
+	diff18 := c.api.Sub(x.D1.C1.B1.A0, y.D1.C1.B1.A0)
+	diff19 := c.api.Sub(x.D1.C1.B1.A1, y.D1.C1.B1.A1)
+	diff20 := c.api.Sub(x.D1.C2.B0.A0, y.D1.C2.B0.A0)
+	diff21 := c.api.Sub(x.D1.C2.B0.A1, y.D1.C2.B0.A1)
+	diff22 := c.api.Sub(x.D1.C2.B1.A0, y.D1.C2.B1.A0)
+	diff23 := c.api.Sub(x.D1.C2.B1.A1, y.D1.C2.B1.A1)
 
 	isZero0 := c.api.IsZero(diff0)
 	isZero1 := c.api.IsZero(diff1)
